@@ -177,6 +177,7 @@ type stmtGen struct {
 	t        *rapid.T
 	ctx      Ctx
 	loopFuel int
+	loops    int
 }
 
 func typedVarName(tp PType, i int) string {
@@ -215,6 +216,35 @@ func returnFor(eg *exprGen, ctx Ctx, depth int) Stmt {
 	return Stmt{K: "return", E: eg.Typed(tp, depth)}
 }
 
+// counterLoop: a bounded loop in the usual idiom - a counter tested at the top,
+// incremented before anything that may `continue`, several rounds, work after the
+// continue. It terminates after `bound` rounds whatever the conditions evaluate to.
+func (g *stmtGen) counterLoop(depth int) []Stmt {
+	g.loops++
+	ci := fmt.Sprintf("i%d", g.loops)
+	acc := fmt.Sprintf("acc%d", g.loops)
+	bound := rapid.IntRange(1, 5).Draw(g.t, "loopbound")
+	body := []Stmt{
+		{K: "if", E: Bin(">=", Var(ci, TNumber), Num(bound)), Then: []Stmt{{K: "break"}}},
+		{K: "set", Name: ci, E: Bin("+", Var(ci, TNumber), Num(1))},
+	}
+	if rapid.Bool().Draw(g.t, "loopcontinue") {
+		cond := Bin("==", Bin("%", Var(ci, TNumber), Num(rapid.IntRange(2, 3).Draw(g.t, "contmod"))), Num(rapid.IntRange(0, 1).Draw(g.t, "contrem")))
+		if rapid.Bool().Draw(g.t, "contcond") {
+			cond = g.eg.Typed(TBool, depth-1)
+		}
+		body = append(body, Stmt{K: "if", E: cond, Then: []Stmt{{K: "continue"}}})
+	}
+	body = append(body, Stmt{K: "set", Name: acc, E: Bin("+", Bin("+", Var(acc, TString), Var(ci, TNumber)), Str(","))})
+	body = append(body, g.WellTyped(rapid.IntRange(0, 1).Draw(g.t, "looptail"), depth-1, true)...)
+	g.eg.vars[TString] = append(g.eg.vars[TString], acc)
+	return []Stmt{
+		{K: "set", Name: ci, E: Num(0)},
+		{K: "set", Name: acc, E: Str("")},
+		{K: "loop", Body: body},
+	}
+}
+
 // WellTyped generates a well-typed, terminating statement list that ends in a
 // return on every path.
 func (g *stmtGen) WellTyped(n int, depth int, inLoop bool) []Stmt {
@@ -240,6 +270,11 @@ func (g *stmtGen) WellTyped(n int, depth int, inLoop bool) []Stmt {
 				body := g.WellTyped(rapid.IntRange(0, 2).Draw(g.t, "loopn"), depth-1, true)
 				body = append(body, Stmt{K: "break"})
 				out = append(out, Stmt{K: "loop", Body: body})
+			}
+		case 6:
+			if g.loopFuel > 0 && depth > 0 && !inLoop {
+				g.loopFuel--
+				out = append(out, g.counterLoop(depth)...)
 			}
 		case 4:
 			if inLoop && rapid.Bool().Draw(g.t, "brk") {
